@@ -3,8 +3,9 @@ correspondence stream.  Imported by tools/props/c11.py (`translate`, `run_stream
 import importlib.util
 from lib.core import *
 
-PROPS_FILES = ["Gama/Props/C11AdjRes.lean", "Gama/Props/C11AdjResInit.lean", "Gama/Props/C11AdjResAccept.lean"]
-LEAN_TARGETS = ["Gama.Props.C11AdjRes", "Gama.Props.C11AdjResInit", "Gama.Props.C11AdjResAccept"]
+PROPS_FILES = ["Gama/Props/C11AdjRes.lean", "Gama/Props/C11AdjResInit.lean", "Gama/Props/C11AdjResAccept.lean",
+               "Gama/Props/C11AdjResWriter.lean"]
+LEAN_TARGETS = ["Gama.Props.C11AdjRes", "Gama.Props.C11AdjResInit", "Gama.Props.C11AdjResAccept", "Gama.Props.C11AdjResWriter"]
 DRIVERS = ["drv_adjres"]
 
 _spec = importlib.util.spec_from_file_location("c11_adjres_gen", str(VERIF / "tools" / "gen" / "c11_adjres.py"))
@@ -28,8 +29,35 @@ def _wall_inconclusive(corr, what):
         corr.inconclusive.append("wall-clock limit expired without CPU exhaustion (loaded machine): " + what)
 
 
+def _translate_writer_skeleton(ctx):
+    """Props/C11AdjResWriter.lean evaluates the reader automaton over the WRITER skeleton of property C12
+    (lean/Gama/Gen/XmlSkeleton.lean, which imports Gen/XmlSites.lean).  Both are regenerated here from ctx.repo with C12's own
+    translators (called read-only, exactly as tools/props/c12.py::translate does; a file is written only if its content
+    changed), so that a change of LocalNetworkXML::write re-checks the round-trip theorem in THIS check too."""
+    try:
+        spec = importlib.util.spec_from_file_location("c12_skeleton", str(VERIF / "tools" / "gen" / "c12_skeleton.py"))
+        sk = importlib.util.module_from_spec(spec)
+        spec.loader.exec_module(sk)
+        sites = sk.S
+    except Exception as e:                                   # C12's translator itself is not loadable: use the files on disk
+        ctx.log(f"c11_adjres: C12 skeleton translator not loadable ({e!r}); using lean/Gama/Gen/XmlSkeleton.lean as it is on disk")
+        return
+    try:
+        txt, _escmap, _sites = sites.generate(ctx.repo)
+        txt2, _info = sk.generate(ctx.repo)
+    except sites.SitesError as e:
+        raise TieBroken("c12_skeleton (writer side of the C11 round trip)", str(e))
+    except OSError as e:
+        raise TieBroken("c12_skeleton (writer side of the C11 round trip)", f"source not readable: {e}")
+    for name, t in (("XmlSites.lean", txt), ("XmlSkeleton.lean", txt2)):
+        out = ctx.verif / "lean" / "Gama" / "Gen" / name
+        if not out.exists() or out.read_text() != t:
+            out.write_text(t)
+
+
 def translate(ctx):
     _tr.run(ctx.repo, ctx.verif)
+    _translate_writer_skeleton(ctx)
 
 
 # ------------------------------------------------------------------ documents
@@ -419,6 +447,20 @@ def run_stream(ctx, corr, bases=None):
                 corr.fail(f"adjustment-results reader: <dim> exceeds the unknowns announced before <cov-mat> but the answer is {O[0]} "
                           f"instead of a refusal naming line {expect[1]} [{label}]", payload,
                           "LocalNetworkAdjustmentResults::Parser::band", "\n".join(out[-4:]))
+        # ---- ROUND TRIP on the implementation (next to C11_reader_accepts_writer_output): a document written by the built gama-local
+        # must be accepted by the real reader AND by the run model on the same events, and the numeric <cov-mat> hypothesis of the
+        # theorem (RunDemand, line `D 1` of the driver) must hold on it
+        if label.startswith("result of ") and expect == "accept":
+            corr.count("adjres_roundtrip_gama_local_docs")
+            mD = [l for l in model[i] if l.startswith("D ")]
+            if t[1] == "ok" and mO == ["O ok"]:
+                corr.count("adjres_roundtrip_accepted_by_reader_and_model")
+            if mD == ["D 1"]:
+                corr.count("adjres_roundtrip_cov_demand_holds")
+            else:
+                corr.fail(f"adjustment-results round trip: gama-local's own result does not meet the <cov-mat> hypothesis of "
+                          f"C11_reader_accepts_writer_output (dim/band/unknowns at </band>, all elements stored at </cov-mat>): {mD} [{label}]",
+                          payload, "LocalNetworkXML::coordinates", "\n".join(out[-4:]))
         if expect == "accept" and t[1] != "ok":
             corr.fail(f"adjustment-results reader refuses a grammar-derived / gama-local's own result ({O[0]}) [{label}]", payload,
                       "LocalNetworkAdjustmentResults::Parser", "\n".join(out[-4:]))
